@@ -76,6 +76,16 @@ pub struct Knobs {
     pub sign_ext: bool,
     /// `let Q = ...;` at top level where Q is a device output
     pub shadow_outputs: bool,
+    /// a `let <output name>` inside a `while` body that never runs, ahead of the program:
+    /// the name then is lexically a variable but denotes the output at run time
+    pub ghost_let: bool,
+    /// chance (in percent) that the program ends with a top-level `while` whose condition is
+    /// a draw: `while((random(3) - 1)) <row> end while`
+    pub trailing_random_while_pct: u32,
+    /// repeat a bare `random(n)` entry in the next input column of the same row
+    pub dup_random_entry: bool,
+    /// percentage of declares whose expression fails without reading an output
+    pub virtual_const_fail_pct: u32,
     /// liberal arithmetic on boundary values, shifts by anything, division by anything
     pub wild: bool,
     /// plant one named hazard (division by zero, unassigned variable, empty random range)
@@ -165,6 +175,10 @@ impl Knobs {
             random: false,
             sign_ext: false,
             shadow_outputs: false,
+            ghost_let: false,
+            trailing_random_while_pct: 0,
+            dup_random_entry: false,
+            virtual_const_fail_pct: 0,
             wild: false,
             named_hazard: false,
             w_beh_tagged: 2,
@@ -951,6 +965,19 @@ impl<'k> Gen<'k> {
                             col += 1;
                         }
                         1 => {
+                            let dup = match entries.last() {
+                                Some(Entry::Expr(Expr::Random(b)))
+                                    if k.dup_random_entry && matches!(**b, Expr::Num(_)) =>
+                                {
+                                    Some(entries.last().unwrap().clone())
+                                }
+                                _ => None,
+                            };
+                            if let (Some(d), true) = (dup, self.rng.chance(1, 2)) {
+                                entries.push(d);
+                                col += 1;
+                                continue;
+                            }
                             let cx = self.cx();
                             let (e, _) = self.gen_expr(k.expr_depth, cx);
                             entries.push(Entry::Expr(e));
@@ -1458,6 +1485,15 @@ impl<'k> Gen<'k> {
                 self.gen_expr(self.k.expr_depth.min(2), cx).0
             };
             self.scopes = saved;
+            let e = if self.k.virtual_const_fail_pct > 0
+                && self.rng.below(100) < self.k.virtual_const_fail_pct as u64
+            {
+                // fails on every evaluation, without reading an output
+                let op = if self.rng.chance(1, 2) { BinOp::Div } else { BinOp::Rem };
+                Expr::bin(op, Expr::Num(1 + self.rng.below(9) as i64), Expr::Num(0))
+            } else {
+                e
+            };
             out.push(Stmt::Declare(name.clone(), e));
         }
         out
@@ -1483,6 +1519,30 @@ impl<'k> Gen<'k> {
             if !placed {
                 let at = self.rng.usize(stmts.len() + 1);
                 stmts.insert(at, d);
+            }
+        }
+        if self.k.random
+            && self.k.trailing_random_while_pct > 0
+            && self.rng.below(100) < self.k.trailing_random_while_pct as u64
+        {
+            // the run ends when the draw says so; a caller that polls again after `None`
+            // must not make it draw again
+            self.randoms_in_stmt = 0;
+            let (entries, _) = self.gen_row(1);
+            let cond = match self.rng.below(3) {
+                0 => Expr::bin(BinOp::Sub, Expr::random(Expr::Num(3)), Expr::Num(1)),
+                1 => Expr::bin(BinOp::And, Expr::random(Expr::Num(4)), Expr::Num(1)),
+                _ => Expr::bin(BinOp::Lt, Expr::random(Expr::Num(5)), Expr::Num(3)),
+            };
+            stmts.push(Stmt::While(cond, vec![Stmt::Row(entries)]));
+        }
+        if self.k.ghost_let && self.virtual_names.is_empty() && !self.readable.is_empty() && self.rng.chance(1, 4) {
+            let o = self.rng.pick(&self.readable).name.clone();
+            if Some(&o) != self.done_sig.as_ref() {
+                stmts.insert(
+                    0,
+                    Stmt::While(Expr::Num(0), vec![Stmt::Let(o, Expr::Num(7))]),
+                );
             }
         }
         Program {
